@@ -73,6 +73,26 @@ impl Resolver {
 
 const EPS: f64 = 8.881784197001252e-16; // 2^-50
 
+/// maintenance aid (not part of any check): with VERIF_C15_DUMP_ATBOUND=<file> every evaluated input whose result may
+/// be as far from the correctly rounded value as the bound allows is appended to <file>; used to refresh
+/// known_findings/C15_hard_inputs.txt from a complete sweep
+fn at_bound(name: &str, x: u32, x2: Option<u32>, r: u32, y: f64) {
+    use std::io::Write;
+    static F: std::sync::OnceLock<Option<Mutex<std::io::BufWriter<std::fs::File>>>> = std::sync::OnceLock::new();
+    let f = F.get_or_init(|| std::env::var("VERIF_C15_DUMP_ATBOUND").ok().and_then(|p| std::fs::File::create(p).ok()).map(|f| Mutex::new(std::io::BufWriter::new(f))));
+    if let Some(m) = f {
+        let mut w = m.lock().unwrap();
+        // real error in units of the result's spacing (f64 reference: good to 1e-8 of a unit), for ranking
+        let rv = P32E2::from_bits(r).to_f64();
+        let sp = (P32E2::from_bits(r.wrapping_add(1)).to_f64() - rv).abs();
+        let e = (rv - y).abs() / sp;
+        let _ = match x2 {
+            Some(y2) => writeln!(w, "{name} {x:#010x} {y2:#010x} {e:.4}"),
+            None => writeln!(w, "{name} {x:#010x} {e:.4}"),
+        };
+    }
+}
+
 /// verdict for one evaluation: result bits r against the f64 reference value y
 fn judge(res: &Resolver, name: &str, bound: i64, r: u32, y: f64, x: u32, x2: Option<u32>) -> (bool, u32) {
     if y.is_nan() {
@@ -96,6 +116,9 @@ fn judge(res: &Resolver, name: &str, bound: i64, r: u32, y: f64, x: u32, x2: Opt
         return (false, lo as i32 as u32);
     }
     if dmax <= bound {
+        if dmin == bound {
+            at_bound(name, x, x2, r, y);
+        }
         return (true, lo as i32 as u32);
     }
     if dmin > bound {
@@ -103,7 +126,12 @@ fn judge(res: &Resolver, name: &str, bound: i64, r: u32, y: f64, x: u32, x2: Opt
     }
     // ambiguous: stage 2
     match res.ask(name, x, x2) {
-        Some(c) => (((ri - (c as i32 as i64)).abs() <= bound), c),
+        Some(c) => {
+            if (ri - (c as i32 as i64)).abs() >= bound {
+                at_bound(name, x, x2, r, y);
+            }
+            (((ri - (c as i32 as i64)).abs() <= bound), c)
+        }
         None => (false, 0xdead_beef),
     }
 }
@@ -200,7 +228,8 @@ fn main() {
         eprintln!("vp_sleef serves C15 only");
         std::process::exit(2);
     }
-    let full = std::env::var("VERIF_C15_FULL").map(|v| v == "1").unwrap_or(false);
+    // thorough = complete 2^32 sweep of every unary function, unless VERIF_C15_LATTICE=1 (set by the C16 thorough pass)
+    let full = t && !std::env::var("VERIF_C15_LATTICE").map(|v| v == "1").unwrap_or(false);
     let res = Arc::new(Resolver { py: Mutex::new(None), dir: cfg.verif_dir.clone(), asked: AtomicU64::new(0), failed: AtomicU64::new(0) });
     let amb = Arc::new(AtomicU64::new(0));
     let mut cells: Vec<CellDef> = vec![];
@@ -357,6 +386,119 @@ fn main() {
             },
         ));
     }
+    // powf outside the positive quadrant: what the property fixes without an accuracy debate.
+    //  * a negative base with a non-integer exponent is outside the real domain: NaR;
+    //  * a negative base with an integer exponent n has the sign (-1)^n, is real and non-zero; only bases with |x| >= 1 and
+    //    n > 0 (or |x| <= 1 and n < 0) are used, so that the exact value has magnitude >= 1 and a result within 5 encodings
+    //    of the correctly rounded one cannot have the other sign;
+    //  * for 1 <= n <= 4 (inside the stated [0.5, 5) range of the exponent) the magnitude is judged like the grid cells.
+    {
+        let (lo, hi) = (0x3800_0000u32, 0x5200_0000u32);
+        let gx: u64 = if t { 2048 } else { 256 };
+        let step = ((hi - lo) as u64 / gx) as u32;
+        // integer exponents: small ones, 2^k and its odd/even neighbours for every k < 24, the largest odd integers
+        let mut ints: Vec<i64> = (1..=20).collect();
+        for k in 2..=23 {
+            for d in [-3i64, -2, -1, 0, 1, 2, 3] {
+                ints.push((1i64 << k) + d);
+            }
+        }
+        ints.extend([4194305, 5000001, 6291459, 8388605, 8388606, 8388607, 8388608, 8388610, 16777216]);
+        ints.sort();
+        ints.dedup();
+        let ys: Vec<u32> = ints.iter().flat_map(|&n| [refs::from_int(32, 2, n as i128), refs::from_int(32, 2, -(n as i128))]).filter(|r| !r.1).map(|r| r.0).collect();
+        // non-integer exponents: every integer above displaced by one encoding (when that is not an integer), halves
+        let mut nonint: Vec<u32> = vec![];
+        for &y in &ys {
+            for d in [1u32, u32::MAX] {
+                let q = y.wrapping_add(d);
+                if let Some(v) = vp_oracle::decode(32, 2, q) {
+                    if !vp_oracle::is_int(v) {
+                        nonint.push(q);
+                    }
+                }
+            }
+        }
+        nonint.extend([0x3800_0000u32, 0x4400_0000, 0x2000_0000, 0x5900_0000]); // 0.5, 1.5, 2^-4.., 
+        nonint.retain(|&q| vp_oracle::decode(32, 2, q).map_or(false, |v| !vp_oracle::is_int(v)));
+        nonint.sort();
+        nonint.dedup();
+        let (ny, nn) = (ys.len() as u64, nonint.len() as u64);
+        let (r2, a2) = (res.clone(), amb.clone());
+        cells.push(CellDef::new(
+            "C15",
+            "P32E2/powf#negbase",
+            Space::func((gx + 12) * (ny + nn), format!("negative bases -x, x on a {gx}-point grid over [0.5, 5) and 12 bases at and next to 1, 2, 1/2 x ({ny} integer exponents: 1..20, 2^k +-3 for k < 24, the largest odd integers, both signs; {nn} non-integer exponents)"), move |i| {
+                const NEAR: [u32; 12] = [0x4000_0000, 0x4000_0001, 0x3fff_ffff, 0x4000_0080, 0x3fff_ff00, 0x4002_0000, 0x3ffe_0000, 0x4800_0000, 0x3800_0000, 0x4000_0002, 0x4400_0000, 0x4000_1000];
+                let xi = i / (ny + nn);
+                let x = (if xi < gx { lo + xi as u32 * step } else { NEAR[(xi - gx) as usize] }).wrapping_neg();
+                let j = i % (ny + nn);
+                let y = if j < ny { ys[j as usize] } else { nonint[(j - ny) as usize] };
+                (x as u128) << 32 | y as u128
+            }),
+            move |k| {
+                let (x, y) = k2(k);
+                let (px, py) = (P32E2::from_bits(x), P32E2::from_bits(y));
+                let yd = vp_oracle::decode(32, 2, y).unwrap();
+                let got = guard(|| px.powf(py).to_bits());
+                let Some(gb) = got else { return Out::cmp(None, 0, true) };
+                if !vp_oracle::is_int(yd) {
+                    return Out::cmp(Some(gb as u128), 0x8000_0000, true);
+                }
+                let n = vp_oracle::floor_int(yd);
+                let ax = px.to_f64().abs();
+                // keep the exact magnitude >= 1
+                if (ax >= 1.0) != (n > 0) && ax != 1.0 {
+                    return Out::skip();
+                }
+                // stay where the exact magnitude is far from the saturation range (the accuracy of huge powers is outside
+                // the function's stated range and not judged here)
+                if (n as f64 * ax.log2()).abs() > 100.0 {
+                    return Out::skip();
+                }
+                let neg = n & 1 == 1;
+                if (1..=4).contains(&n) {
+                    let yv = px.to_f64().powi(n as i32);
+                    let before = r2.asked.load(Ordering::Relaxed);
+                    let (ok, want) = judge(&r2, "powf", 5, gb, yv, x, Some(y));
+                    if r2.asked.load(Ordering::Relaxed) != before {
+                        a2.fetch_add(1, Ordering::Relaxed);
+                    }
+                    return Out { ok, nt: true, got: gb as u128, want: want as u128, ops: 1, panicked: false };
+                }
+                // sign, realness and magnitude >= 1 - 5 encodings only
+                let real = gb != 0x8000_0000 && gb != 0;
+                let sign_ok = ((gb as i32) < 0) == neg;
+                let mag = if (gb as i32) < 0 { gb.wrapping_neg() } else { gb };
+                let ok = real && sign_ok && mag >= 0x4000_0000 - 5;
+                Out { ok, nt: true, got: gb as u128, want: if neg { 0xc000_0000 } else { 0x4000_0000 }, ops: 1, panicked: false }
+            },
+        ));
+        // the fixed points the implementation documents: x^0 = 1, 1^y = 1, 0^y
+        let al = alphabet(32, 2, false);
+        cells.push(CellDef::new("C15", "P32E2/powf#identities", Space::list32(al, "A(32,2,coarse): pow(a, 0) = 1, pow(1, a) = 1, pow(0, a) = 0 for a > 0; pow(a, NaR) = pow(NaR, a) = NaR for every a"), move |k| {
+            let a = k as u32;
+            let pa = P32E2::from_bits(a);
+            let got = guard(|| {
+                let z = P32E2::from_bits(0);
+                let one = P32E2::from_bits(0x4000_0000);
+                let nar = P32E2::from_bits(0x8000_0000);
+                let mut bad = 0u128;
+                if a != 0x8000_0000 {
+                    bad |= (pa.powf(z).to_bits() != 0x4000_0000) as u128;
+                    bad |= ((one.powf(pa).to_bits() != 0x4000_0000) as u128) << 1;
+                    if (a as i32) > 0 {
+                        bad |= ((z.powf(pa).to_bits() != 0) as u128) << 2;
+                    }
+                    // NaR in, NaR out — also for the operands that otherwise short-cut (1^y, x^0)
+                    bad |= ((pa.powf(nar).to_bits() != 0x8000_0000) as u128) << 3;
+                    bad |= ((nar.powf(pa).to_bits() != 0x8000_0000) as u128) << 4;
+                }
+                bad
+            });
+            Out::cmp(got, 0, true).ops(5)
+        }));
+    }
     if let Ok(txt) = std::fs::read_to_string(format!("{}/known_findings/C15_hard_inputs.txt", cfg.verif_dir)) {
         let mut l: Vec<u128> = vec![];
         for line in txt.lines() {
@@ -410,7 +552,7 @@ fn main() {
             "mpmath at 300 bits and the Python posit model for the ambiguous cases".into(),
             "domains and bounds as stated by the crate (its own test ranges): |x| < 393216 for sin/cos/tan, [-1,1] for asin/acos, x > 0 for ln/log2, |x| <= 104 for exp, [-150,128) for exp2, |x| <= 88 for sinh/cosh, [0.5,5) for powf".into(),
         ],
-        bound: format!("all cells complete ({} tier{})", cfg.tier, if full { ", VERIF_C15_FULL: complete 2^32 sweep per unary function" } else { "" }),
+        bound: format!("all cells complete ({} tier{})", cfg.tier, if full { ": complete 2^32 sweep per unary function" } else { "" }),
     };
     let rc = run_cells(&cfg, cells, extra, rep);
     if res.failed.load(Ordering::Relaxed) > 0 && rc == 0 {
